@@ -7,6 +7,7 @@ import (
 	"encoding/hex"
 	"encoding/json"
 	"fmt"
+	"github.com/nikunjy/rules/parser"
 	"math"
 	"reflect"
 	"sort"
@@ -145,7 +146,25 @@ type strOK struct {
 	s  string
 }
 
-func (t strOK) String() string { callLog = append(callLog, t.id); return t.s }
+// currentEv: the evaluator whose Process call is in progress (set by observeProcess). A Stringer with an id from 3000 on
+// is RE-ENTRANT: while it is asked for its text it uses that same evaluator (LastDebugErr, then Process on an empty
+// object) - what a value that renders itself with the help of a rule does. For the engine it is an ordinary Stringer.
+var currentEv *parser.Evaluator
+var reentered bool
+
+func (t strOK) String() string {
+	callLog = append(callLog, t.id)
+	if t.id >= 3000 && currentEv != nil && !reentered {
+		reentered = true
+		func() {
+			defer func() { recover(); reentered = false }()
+			ev := currentEv
+			_ = ev.LastDebugErr()
+			ev.Process(map[string]interface{}{})
+		}()
+	}
+	return t.s
+}
 
 // typed nil pointers whose String() tolerates the nil receiver (like (*big.Int)(nil)): eight distinct types so that up to
 // eight of them in one object log their own ids
@@ -223,6 +242,7 @@ func (t strSelfPanicFn) String() string {
 	callLog = append(callLog, t.id)
 	panic(t)
 }
+
 type someStruct struct {
 	A int
 	b string
